@@ -168,7 +168,10 @@ def run_shape(shape):
                 ks = [(int(a), int(b)) for a, b in zip(c.row, c.col)]
                 M2.data = sarr([SR(vals[k]) for k in ks]) if ks else M2.data
                 return M2
-            Q = T.SQRA(energies=sarr([SR(x) for x in E]), volumes=sarr([SR(x) for x in fv]), distances=relaid(H, fh), surfaces=relaid(S, fs)).get_rate_matrix(SR(D), SR(Tt))
+            sq = T.SQRA(energies=sarr([SR(x) for x in E]), volumes=sarr([SR(x) for x in fv]), distances=relaid(H, fh), surfaces=relaid(S, fs))
+            Q = sq.get_rate_matrix(SR(D), SR(Tt))
+            Qagain = sq.get_rate_matrix(SR(D), SR(Tt))   # e.g. a temperature scan re-uses the loaded arrays
+            cut["again"] = Qagain
             return cut, A, Q, fv, keys
 
     expf = uf_exp()
@@ -216,6 +219,8 @@ def run_shape(shape):
                 if i != j:
                     claims.append((f"Q_pattern[{i},{j}]", (z(Qd[i, j]) != 0) == z3.BoolVal((i, j) in adj)))
             claims.append((f"rowsum[{i}]", z3.Sum([z(Qd[i, j]) for j in range(n)]) == 0))
+        Qa = cut["again"].toarray()
+        claims += [(f"second_call_same_matrix[{i},{j}]", z(Qa[i, j]) == z(Qd[i, j])) for i in range(n) for j in range(n)]
         acc.add(prover.prove_all(indep, claims), make_cex=lambda r_: {})
         db_ok = 0
         pi = [fv[i] * expf(-E[i] / (Rgas * Tt)) for i in range(n)]
@@ -276,7 +281,9 @@ def replay(cex):
             Tt, D = fval(model, "T", 300.0), fval(model, "D", 1.0)
             if not (200 <= Tt <= 400):
                 Tt = 300.0
-            Q = T.SQRA(E, np.asarray(V, dtype=float), H, S).get_rate_matrix(D, Tt)
+            sq = T.SQRA(E, np.asarray(V, dtype=float), H, S)
+            Q = sq.get_rate_matrix(D, Tt)
+            Q = sq.get_rate_matrix(D, Tt)     # the property must hold for every call, not only the first one on freshly loaded arrays
     except Exception as e:  # noqa: BLE001
         shutil.rmtree(tmp, ignore_errors=True)
         return {"reproduced": True, "detail": f"writer/reader/rate matrix raised {e!r}"}
